@@ -215,6 +215,9 @@ def const_cases(draw, n1):
     dt = draw(st.sampled_from([0.125, 0.25, 0.5, 1.0]))
     grid = [i * dt for i in range(draw(st.integers(2, 5)))]
     if draw(st.integers(0, 3)) == 0:
+        # requested times need not be evenly spaced: some closer together than the first step (the simulator's volume tick)
+        grid = [0.0, dt, 1.25 * dt, 1.5 * dt, 2.5 * dt][:draw(st.integers(3, 5))]
+    if draw(st.integers(0, 3)) == 0:
         sp = draw(open_networks())
         caps = {"A": 70, "B": 70}
         return {"kind": "const", "spec": sp, "grid": grid, "vol": min(vol, 4.0), "how": how, "n1": n1, "caps": caps,
